@@ -1,45 +1,8 @@
-(* C02_Extract.v — executable entry points of the C02 model at the list
-   instance, for the correspondence check.  ExtrOcamlBasic only. *)
+(* C02_Extract.v — extraction of the executable entry points of the C02 model
+   (defined in C02_Entry.v at the list instance), for the correspondence
+   check.  ExtrOcamlBasic only. *)
 Require Import ZArith List.
-Require Import BFL.Ops BFL.ListOps BFL.C02_Model.
+Require Import BFL.Ops BFL.ListOps BFL.C02_Model BFL.C02_Entry.
 Require Import Extraction ExtrOcamlBasic.
-Import ListNotations.
 
-Definition c02_O (S : SOps) : MatOps := ListMat S (fun _ A => A) (fun _ A => A).
-
-(* the harness' exogenous model u(X) = B X + c 1^T, or none *)
-Definition c02_exo (S : SOps) (n k : nat) (e : option (lmx S * lmx S))
-  : option (M (c02_O S) n k -> M (c02_O S) n k) :=
-  match e with
-  | Some (B, c) => Some (@affine_exo (c02_O S) n k B c)
-  | None => None
-  end.
-
-Definition c02_mix (S : SOps) (n k : nat) (g : lmx S * list (lmx S) * list (T S)) : gmix (c02_O S) n k :=
-  @mkGmix (c02_O S) n k (fst (fst g)) (snd (fst g)) (snd g).
-
-(* GaussianPrediction::predict with the three skip flags as given *)
-Definition c02_run (S : SOps) (n k : nat) (F Q : lmx S) (e : option (lmx S * lmx S))
-           (sp ss se : bool) (prev old : lmx S * list (lmx S) * list (T S))
-  : lmx S * list (lmx S) * list (T S) :=
-  let r := @gaussian_predict (c02_O S) n k F Q (c02_exo S n k e) sp ss se (c02_mix S n k prev) (c02_mix S n k old) in
-  (gm_means r, gm_covs r, gm_weights r).
-
-(* LinearStateModel::propagate alone *)
-Definition c02_propagate (S : SOps) (n k : nat) (F : lmx S) (e : option (lmx S * lmx S))
-           (ss se : bool) (cur old : lmx S) : lmx S :=
-  @lin_propagate (c02_O S) n k F (c02_exo S n k e) ss se cur old.
-
-(* spec, component by component: (F m_i + u_i, F P_i F^T + Q) with u_i = B m_i + c *)
-Definition c02_spec (S : SOps) (n k : nat) (F Q : lmx S) (e : option (lmx S * lmx S))
-           (means : lmx S) (covs : list (lmx S)) : list (lmx S * lmx S) :=
-  map (fun ip : nat * lmx S =>
-         let x := @mcol (c02_O S) n k (fst ip) means in
-         let u := match e with
-                  | Some (B, c) => @madd (c02_O S) n 1 (@mmul (c02_O S) n n 1 B x) c
-                  | None => @mzero (c02_O S) n 1
-                  end in
-         (@spec_mean (c02_O S) n F u x, @kf_predict_cov (c02_O S) n F Q (snd ip)))
-      (combine (seq 0 (length covs)) covs).
-
-Extraction "C02_model.ml" c02_run c02_propagate c02_spec.
+Extraction "C02_model.ml" c02_run c02_propagate c02_spec c02_seq gl_dim gl_dim_cov.
